@@ -373,3 +373,181 @@ Theorem C14_use_sites_image_examples :
   end /\
   match pipeline_gen false (fs ".const A, 7;") 8 (src "r") r with Done Failure (_ :: _) _ => True | _ => False end.
 Proof. vm_compute. repeat split; reflexivity. Qed.
+
+(* ---- the oracle's projects as TEXT: `occ` for EVERY project, no hypothesis left (supersedes item (2) of the header's list of what
+   is missing for C14_use_sites; proofs: Asm/ScopeText.v (how a project is written), Asm/ScopeLink.v (text -> statements by C09's
+   character-level round trip, the oracle's expansion as a list recursion), Asm/ScopeLinkSeg.v (where the active segment
+   stands), Asm/ScopeLinkOcc.v (the induction over include depth), Asm/ScopeLinkTop.v).
+   ScopeText.show_project p = (file system, root path, root text): every file of p under its plain name, one statement per line
+       .addr 256;   .const A, 7;   A:   .global A;   .import A;   .export A;   .include "c";   .du32 A;
+   (Text/ShowSpec.show of Text/Render.render_stmts with spaces / line feeds as separators); project_fs / project_root /
+   project_text are its three components.
+   project_ok p: the project can be written: names are identifiers, `.const` values and the address are literals 0 <= v < 2^63
+   (a negative number is an expression `-5`, which `occ` does not relate to SConst), file names are non-empty, UTF-8, without `/`
+   (all files in one directory: there the model's resolve_path is the identity on the included name).
+   a + 4n < 2^32 (a = the `.addr`, n = number of `.du32`): the oracle gives a label the value a + 4k in Z; the model's
+   curr_addr is a u32 that saturates at 2^32 - 1, so a label at the very end of the address space reads 0xFFFFFFFF, not 2^32.
+   expand_project p = Some ..: the oracle itself expands p (root starts with `.addr`, all files found, nesting <= max_depth). ---- *)
+From Trion Require Import Asm.CtxInvDefs Asm.ScopeText Asm.ScopeLinkSeg.
+From Trion Require Asm.ScopeLink Asm.ScopeLinkOcc Asm.ScopeLinkTop.
+
+(* 1. the text of every such project is an occurrence of the tree the oracle's own expansion gives it, from the initial state,
+   for every include fuel f and both profiles *)
+Theorem C14_project_occ : forall dbg p a t n f, project_ok p = true -> expand_project p = Some (a, t, n) ->
+  (a + 4 * Z.of_N n < 4294967296)%Z ->
+  occ dbg (project_fs p) f init_state (project_text p) (project_root p) t.
+Proof. exact ScopeLinkOcc.occ_of_project. Qed.
+
+(* 2. C14_use_sites_partial_sources / _value for ALL oracle projects: with more include fuel than the project has files the
+   pipeline terminates (Done: C06), and the table the root file ends with - the table every `.du32 x` of the root reads, at the
+   statement or at its end-of-file retry (C14_use_sites_partial_now / _retry) - holds for every name only values the oracle
+   names; where the oracle names exactly one value, that one *)
+Theorem C14_project_sources : forall dbg p a t n f, project_ok p = true -> expand_project p = Some (a, t, n) ->
+  (a + 4 * Z.of_N n < 4294967296)%Z -> (List.length (p_files p) <= f)%nat ->
+  exists s diags regions r st2 t2,
+    pipeline_gen dbg (project_fs p) (S f) (project_root p) (project_text p) = Done s diags regions /\
+    assemble_open dbg (project_fs p) (assemble dbg (project_fs p) f) init_state (project_text p) (project_root p) = Ret r st2 /\
+    locals st2 = Some t2 /\
+    (forall x v, tbl_get t2 x = Some (Some v) -> In v (sources t no_env x)) /\
+    (forall x v v', sources t no_env x = [v'] -> tbl_get t2 x = Some (Some v) -> v = v').
+Proof. exact ScopeLinkTop.project_sources_done. Qed.
+
+(* ... with any fuel, whenever the pipeline terminates *)
+Theorem C14_project_sources_any_fuel : forall dbg p a t n f s diags regions, project_ok p = true ->
+  expand_project p = Some (a, t, n) -> (a + 4 * Z.of_N n < 4294967296)%Z ->
+  pipeline_gen dbg (project_fs p) (S f) (project_root p) (project_text p) = Done s diags regions ->
+  exists r st2 t2,
+    assemble_open dbg (project_fs p) (assemble dbg (project_fs p) f) init_state (project_text p) (project_root p) = Ret r st2 /\
+    locals st2 = Some t2 /\
+    (forall x v, tbl_get t2 x = Some (Some v) -> In v (sources t no_env x)) /\
+    (forall x v v', sources t no_env x = [v'] -> tbl_get t2 x = Some (Some v) -> v = v').
+Proof. exact ScopeLinkTop.project_sources. Qed.
+
+(* EVERY FILE INSTANCE, by an inductive invariant.  Inv (body, st, t, k, penv): the oracle expands the file `body` to t from
+   counter k (within the 32-bit bound), st satisfies the C13 invariant `good` (it holds in every reachable state: C13), the active
+   segment of st is (a, 4k) (seg_sig: base and length), and every value in the includer's table at entry is in penv.
+   _instance_sources: Inv => the table the instance ends with holds only the oracle's sources t penv (whatever its result);
+   _instance_enters:  Inv is handed on: when all statements in front of an `.include "g"` of the file returned Ok (state sa), g is
+                      found under its plain name, the oracle has a child tree tc at that place, and Inv holds for
+                      (g's body, sa, tc, k1, sources t penv);
+   _root_enters:      the same for the root file, entered from the initial state with the empty environment - the start of
+                      the chain.  Hence by induction along the run: in every file instance the run enters, `.du32 x` reads a
+                      table whose values are the oracle's sources for x in THAT instance. *)
+Theorem C14_project_instance_sources : forall dbg files a d f path body k t k' st r st2 t2 (penv : str -> list Z),
+  (forall n b, In (n, b) files -> plain_name n = true /\ forallb stmt_ok b = true) -> (0 <= a)%Z ->
+  plain_name path = true -> forallb stmt_ok body = true ->
+  expand d files a body k = Some (t, k') -> (a + 4 * Z.of_N k' < 4294967296)%Z ->
+  good st -> seg_sig st = Some (Z.to_N a, 4 * k) -> ScopeLinkOcc.cover penv (entry_globals st) ->
+  assemble_open dbg (fs_of files) (assemble dbg (fs_of files) f) st (show_file body) path = Ret r st2 -> locals st2 = Some t2 ->
+  forall x v, tbl_get t2 x = Some (Some v) -> In v (sources t penv x).
+Proof. exact ScopeLinkTop.instance_sources. Qed.
+
+Theorem C14_project_instance_enters : forall dbg files a d f path body k t k' st (penv : str -> list Z) pre e post tail g sa,
+  (forall n b, In (n, b) files -> plain_name n = true /\ forallb stmt_ok b = true) -> (0 <= a)%Z ->
+  plain_name path = true -> forallb stmt_ok body = true ->
+  expand (S d) files a body k = Some (t, k') -> (a + 4 * Z.of_N k' < 4294967296)%Z ->
+  good st -> seg_sig st = Some (Z.to_N a, 4 * k) -> ScopeLinkOcc.cover penv (entry_globals st) ->
+  parse_source (show_file body) = Parsed (pre ++ ParseModel.IOk e :: post) tail -> e_val e = ev_of (SInclude g) ->
+  run_items dbg (fs_of files) (assemble dbg (fs_of files) f) pre (fst (enter_file st path)) = Ret None sa ->
+  exists b k1 tc k2,
+    fs_of files (resolve_path (curr_of sa) g) = Some (show_file b) /\ resolve_path (curr_of sa) g = g /\
+    In (IChild tc) (items_of t) /\
+    plain_name g = true /\ forallb stmt_ok b = true /\
+    expand d files a b k1 = Some (tc, k2) /\ (a + 4 * Z.of_N k2 < 4294967296)%Z /\
+    good sa /\ seg_sig sa = Some (Z.to_N a, 4 * k1) /\ ScopeLinkOcc.cover (sources t penv) (entry_globals sa).
+Proof. exact ScopeLinkTop.instance_enters. Qed.
+
+Theorem C14_project_root_enters : forall dbg p a t n f pre e post tail g sa, project_ok p = true ->
+  expand_project p = Some (a, t, n) -> (a + 4 * Z.of_N n < 4294967296)%Z ->
+  parse_source (project_text p) = Parsed (pre ++ ParseModel.IOk e :: post) tail -> e_val e = ev_of (SInclude g) ->
+  run_items dbg (project_fs p) (assemble dbg (project_fs p) f) pre (fst (enter_file init_state (project_root p))) = Ret None sa ->
+  (forall m b, In (m, b) (p_files p) -> plain_name m = true /\ forallb stmt_ok b = true) /\ (0 <= a)%Z /\
+  exists b k1 tc k2,
+    project_fs p (resolve_path (curr_of sa) g) = Some (show_file b) /\ resolve_path (curr_of sa) g = g /\
+    In (IChild tc) (items_of t) /\
+    plain_name g = true /\ forallb stmt_ok b = true /\
+    expand 5 (p_files p) a b k1 = Some (tc, k2) /\ (a + 4 * Z.of_N k2 < 4294967296)%Z /\
+    good sa /\ seg_sig sa = Some (Z.to_N a, 4 * k1) /\ ScopeLinkOcc.cover (sources t no_env) (entry_globals sa).
+Proof. exact ScopeLinkTop.project_enters. Qed.
+
+(* non-vacuity, three files:   r = `.addr 256; .include "a"; .du32 A; .du32 B; .du32 L;`
+                               a = `.include "b"; .const A, 7; .export A; .export B; .global L; L:`
+                               b = `.const B, 9; .export B; .du32 B;`
+   the premises hold, the texts are the ones above (one statement per line), the pipeline succeeds with the image the oracle's
+   `uses` require (9, 7, 9, 260 at 256..271), the oracle accepts; and C14_project_sources applied to it *)
+Theorem C14_project_examples :
+  project_ok ScopeLinkTop.ex3 = true /\ expand_project ScopeLinkTop.ex3 = Some (256%Z, ScopeLinkTop.ex3_tree, 4) /\
+  project_text ScopeLinkTop.ex3 = Arm.DisplayModel.bytes_of_string
+    (".addr 256;" ++ ScopeLinkTop.ex3_nl ++ ".include ""a"";" ++ ScopeLinkTop.ex3_nl ++ ".du32 A;" ++ ScopeLinkTop.ex3_nl ++
+     ".du32 B;" ++ ScopeLinkTop.ex3_nl ++ ".du32 L;" ++ ScopeLinkTop.ex3_nl)%string /\
+  project_fs ScopeLinkTop.ex3 ScopeLinkTop.ex3_a = Some (Arm.DisplayModel.bytes_of_string
+    (".include ""b"";" ++ ScopeLinkTop.ex3_nl ++ ".const A, 7;" ++ ScopeLinkTop.ex3_nl ++ ".export A;" ++ ScopeLinkTop.ex3_nl ++
+     ".export B;" ++ ScopeLinkTop.ex3_nl ++ ".global L;" ++ ScopeLinkTop.ex3_nl ++ "L:" ++ ScopeLinkTop.ex3_nl)%string) /\
+  pipeline_gen false (project_fs ScopeLinkTop.ex3) 8 (project_root ScopeLinkTop.ex3) (project_text ScopeLinkTop.ex3)
+    = Done Success [] [(256, 271, [9; 0; 0; 0; 7; 0; 0; 0; 9; 0; 0; 0; 4; 1; 0; 0])] /\
+  j_verdict (judge_project ScopeLinkTop.ex3) = Accept /\
+  j_uses (judge_project ScopeLinkTop.ex3) = [(0, Some 9%Z); (1, Some 7%Z); (2, Some 9%Z); (3, Some 260%Z)] /\
+  sources ScopeLinkTop.ex3_tree no_env ScopeLinkTop.ex3_L = [260%Z].
+Proof. exact ScopeLinkTop.ex3_facts. Qed.
+
+Theorem C14_project_example_sources : exists r st2 t2,
+  assemble_open false (project_fs ScopeLinkTop.ex3) (assemble false (project_fs ScopeLinkTop.ex3) 7) init_state
+    (project_text ScopeLinkTop.ex3) (project_root ScopeLinkTop.ex3) = Ret r st2 /\
+  locals st2 = Some t2 /\
+  (forall x v, tbl_get t2 x = Some (Some v) -> In v (sources ScopeLinkTop.ex3_tree no_env x)) /\
+  tbl_get t2 ScopeLinkTop.ex3_A = Some (Some 7%Z) /\ tbl_get t2 ScopeLinkTop.ex3_B = Some (Some 9%Z) /\
+  tbl_get t2 ScopeLinkTop.ex3_L = Some (Some 260%Z).
+Proof. exact ScopeLinkTop.ex3_sources. Qed.
+
+(* the bound a + 4n < 2^32 is needed:  r = `.addr 4294967292; .du32 L; L:`  has a + 4n = 2^32; the oracle's label value is
+   2^32 (computed in Z; verdict Unspecified), the model's label reads 0xFFFFFFFF (curr_addr saturates) and the run succeeds
+   with the bytes FF FF FF FF - so the oracle's IDef item is not the model's label there *)
+Theorem C14_project_bound_example :
+  project_ok ScopeLinkTop.ext_p = true /\
+  expand_project ScopeLinkTop.ext_p = Some (4294967292%Z, Node [IUse [76] 0; IDef [76] 4294967296], 1) /\
+  j_uses (judge_project ScopeLinkTop.ext_p) = [(0, Some 4294967296%Z)] /\ j_verdict (judge_project ScopeLinkTop.ext_p) = Unspecified /\
+  pipeline_gen false (project_fs ScopeLinkTop.ext_p) 8 (project_root ScopeLinkTop.ext_p) (project_text ScopeLinkTop.ext_p)
+    = Done Success [] [(4294967292, 4294967295, [255; 255; 255; 255])].
+Proof. exact ScopeLinkTop.ext_facts. Qed.
+
+(* ---- 3 (partial): the converse direction on whole projects, for ONE verdict class.
+   Full statement (NOT proved):  judge_project p = MustDiag r  =>  the pipeline ends without success, with a diagnostic (all r);
+                                 judge_project p = Accept      =>  the pipeline succeeds and every use site k holds the value of `uses`.
+   Proved: the class r = RRegisterName (a `.const` / label / `.global` / `.import` / `.export` in any file instance names a
+   register of the oracle's table): the pipeline terminates (more fuel than files), not with Success, and a Failure carries a
+   diagnostic.  More generally whenever RRegisterName occurs ANYWHERE in the oracle's error list (not only first).
+   Not covered: RDuplicate, RImportLacks, RExportUnvalued, RInvisibleUse, RImportAndExport (they need the state of the tables
+   and of the deferred tasks along a successful run, not only that each statement returned Ok - per statement they are the
+   C14_diag_ theorems), and the Accept direction (success is derived only for C05's project class: C14_use_sites_image_partial).
+   Proof: Asm/ScopeLinkReg.v (the oracle's register table is contained in the model's is_register; a statement that returns Ok
+   names no register; every statement of every instance of a successful run returned Ok). ---- *)
+From Trion Require Asm.ScopeLinkReg.
+
+Theorem C14_project_judgement_partial : forall dbg p a t n f, project_ok p = true -> expand_project p = Some (a, t, n) ->
+  (a + 4 * Z.of_N n < 4294967296)%Z -> j_verdict (judge_project p) = MustDiag RRegisterName ->
+  (List.length (p_files p) <= f)%nat ->
+  exists s diags regions, pipeline_gen dbg (project_fs p) (S f) (project_root p) (project_text p) = Done s diags regions /\
+    s <> Success /\ (s = Failure -> diags <> []).
+Proof. exact ScopeLinkReg.project_judgement_partial. Qed.
+
+Theorem C14_project_register_fails : forall dbg p a t n fuel s diags regions, project_ok p = true ->
+  expand_project p = Some (a, t, n) -> (a + 4 * Z.of_N n < 4294967296)%Z ->
+  In RRegisterName (ScopeSpec.errors t no_env ++ top_errors t) ->
+  pipeline_gen dbg (project_fs p) fuel (project_root p) (project_text p) = Done s diags regions ->
+  s <> Success /\ (s = Failure -> diags <> []).
+Proof. exact ScopeLinkReg.project_register_fails. Qed.
+
+(* the oracle's register names are register names of the model (one inclusion; it is what the theorem needs) *)
+Theorem C14_project_register_table : forall x, ScopeSpec.is_register x = true -> CtxModel.is_register x = true.
+Proof. exact ScopeLinkReg.is_register_agree. Qed.
+
+(* non-vacuity:  r = `.addr 256; .include "a"; .du32 A;`   a = `.const A, 1; .export A; .global r7; r7:`
+   the oracle says MustDiag RRegisterName; the run fails with the diagnostic at a:3 (`.global r7`) and `include failed` at r:2 *)
+Theorem C14_project_judgement_example :
+  project_ok ScopeLinkReg.exr_p = true /\ j_verdict (judge_project ScopeLinkReg.exr_p) = MustDiag RRegisterName /\
+  match pipeline_gen false (project_fs ScopeLinkReg.exr_p) 8 (project_root ScopeLinkReg.exr_p) (project_text ScopeLinkReg.exr_p) with
+  | Done Failure [d1; d2] _ => d_file d1 = [97] /\ d_line d1 = 3 /\ d_class d1 = KApply AConstReserved /\
+                               d_file d2 = [114] /\ d_line d2 = 2 /\ d_class d2 = KApply AIncFailed
+  | _ => False
+  end.
+Proof. exact ScopeLinkReg.exr_facts. Qed.
